@@ -160,6 +160,9 @@ type Minter struct {
 	Kt     *KeytabModel
 	Serial int
 	PACFor func(spec ReqSpec, svcKey rk.EncryptionKey, r *core.Rng) ([]rk.AuthDataEntry, bool) // optional
+	// PlainHook lets a Byzantine peer damage the plaintext of the ticket ("tkt") or of the
+	// authenticator ("auth") before it is sealed with the right key (C04).
+	PlainHook func(which string, plain []byte) []byte
 }
 
 // Mint builds the AP-REQ for spec as it would be presented at instant s (a whole second) with
@@ -263,7 +266,11 @@ func (m *Minter) Mint(spec ReqSpec, s time.Time, skew time.Duration, r *core.Rng
 		tr.TicketUsage = rk.KUASRepEncPart
 	}
 	conf := r.Bytes(rcrypto.ConfounderSize(et))
-	enc, err := rk.Seal(tr.SealKey, tr.TicketUsage, etp.EncBytes(), conf, int64(spec.Kvno), spec.KvnoField)
+	tplain := etp.EncBytes()
+	if m.PlainHook != nil {
+		tplain = m.PlainHook("tkt", tplain)
+	}
+	enc, err := rk.Seal(tr.SealKey, tr.TicketUsage, tplain, conf, int64(spec.Kvno), spec.KvnoField)
 	if err != nil {
 		return nil, err
 	}
@@ -342,7 +349,11 @@ func (m *Minter) Mint(spec ReqSpec, s time.Time, skew time.Duration, r *core.Rng
 	if hasDefect(ds, "auth-usage-7") != nil {
 		tr.AuthUsage = rk.KUTGSReqAuth
 	}
-	aenc, err := rk.Seal(akey, tr.AuthUsage, au.EncBytes(), r.Bytes(rcrypto.ConfounderSize(et)), 0, false)
+	aplain := au.EncBytes()
+	if m.PlainHook != nil {
+		aplain = m.PlainHook("auth", aplain)
+	}
+	aenc, err := rk.Seal(akey, tr.AuthUsage, aplain, r.Bytes(rcrypto.ConfounderSize(et)), 0, false)
 	if err != nil {
 		return nil, err
 	}
